@@ -66,18 +66,57 @@ Proof.
     pose proof (valid_fh_pos fh h H Hh). lia.
 Qed.
 
+(* ---- semantic normalisation of window expressions ---------------------------------------------
+   The regenerated code may compute a test window as `split_point + fh - 1`, `split_point +
+   (fh - 1)`, `fh + cutoff`, ... and a training window as `arange(a, b) + 1` or `arange(a + 1,
+   b + 1)`: every such shape is an affine image of fh / of a unit-step range.  The bridge proofs
+   below only use that, so that they survive re-association, hoisting and inlining. *)
+Lemma test_norm fh (F G : Z -> Z) : valid_fh fh ->
+  (forall h, In h fh -> F h = G h /\ 0 <= F h) ->
+  filter (fun v => v >=? 0) (map F fh) = map G fh.
+Proof.
+  intros H HF. rewrite filter_ge0_id.
+  - apply map_ext_in. intros h Hh. apply HF, Hh.
+  - intros x Hx. apply in_map_iff in Hx. destruct Hx as [h [<- Hh]]. apply HF, Hh.
+Qed.
+
+Lemma map_affine_zrange1 (a b : Z) s e :
+  map (fun v => v + b) (zrange s e 1) = zrange (s + b) (e + b) 1.
+Proof. apply zrange_shift. Qed.
+
+(* goal: filter (>=? 0) (<affine image of fh>) = map G fh *)
+Ltac solve_test Hfh :=
+  rewrite ?map_map; apply test_norm; [exact Hfh|];
+  let h := fresh "h" in let Hh := fresh "Hh" in
+  intros h Hh; pose proof (valid_fh_pos _ h Hfh Hh); pose proof (valid_fh_le_last _ h Hfh Hh);
+  cbv beta; split; lia.
+(* goal: filter (>=? 0) (<unit-step range, possibly shifted>) = zrange A B 1 *)
+Ltac solve_train :=
+  rewrite ?zrange_shift; rewrite zrange_filter_ge; f_equal; lia.
+(* all `let`s, and the case analysis on optional arguments the code happens to do *)
+Ltac open_lets := cbv beta iota zeta.
+(* case analysis on every test the regenerated code makes (whatever comparison it is written with) *)
+Ltac split_tests :=
+  repeat match goal with
+         | |- context [if ?b then _ else _] =>
+             lazymatch b with
+             | context [if _ then _ else _] => fail
+             | _ => let E := fresh "E" in destruct b eqn:E
+             end
+         end.
+
 Lemma sliding_windows_eq start e st w fh : valid_fh fh -> 0 <= start -> 0 < st ->
   map (fun '(train, test) => (filter (fun v_ => v_ >=? 0) train, filter (fun v_ => v_ >=? 0) test))
       (gen_sliding_windows start e st w fh) =
   map (fun cut => (zrange (Z.max (cut + 1 - w) 0) (cut + 1) 1, map (fun h => cut + h) fh))
       (zrange (start - 1) (e - 1) st).
 Proof.
-  intros H Hs Hst. unfold gen_sliding_windows. rewrite app_nil_r, map_map.
+  intros H Hs Hst. unfold gen_sliding_windows. open_lets. rewrite app_nil_r, map_map.
   rewrite <- (zrange_map_affine 1 st Hst), map_map.
   apply map_ext_in. intros p Hin. apply zrange_spec in Hin; [|exact Hst].
-  destruct Hin as [k [Hk [Hp _]]]. assert (0 <= p) by nia. f_equal.
-  - rewrite zrange_filter_ge. f_equal; lia.
-  - apply test_filter_eq; assumption.
+  destruct Hin as [k [Hk [Hp _]]]. assert (0 <= p) by nia. open_lets. f_equal.
+  - solve_train.
+  - solve_test H.
 Qed.
 
 Lemma expanding_windows_eq start e st w fh : valid_fh fh -> 0 <= start -> start - w <= 0 -> 0 < st ->
@@ -86,12 +125,12 @@ Lemma expanding_windows_eq start e st w fh : valid_fh fh -> 0 <= start -> start 
   map (fun cut => (zrange 0 (cut + 1) 1, map (fun h => cut + h) fh))
       (zrange (start - 1) (e - 1) st).
 Proof.
-  intros H Hs Hw Hst. unfold gen_expanding_windows. rewrite app_nil_r, map_map.
+  intros H Hs Hw Hst. unfold gen_expanding_windows. open_lets. rewrite app_nil_r, map_map.
   rewrite <- (zrange_map_affine 1 st Hst), map_map.
   apply map_ext_in. intros p Hin. apply zrange_spec in Hin; [|exact Hst].
-  destruct Hin as [k [Hk [Hp _]]]. assert (0 <= p) by nia. f_equal.
-  - rewrite zrange_filter_ge. f_equal; lia.
-  - apply test_filter_eq; assumption.
+  destruct Hin as [k [Hk [Hp _]]]. assert (0 <= p) by nia. open_lets. f_equal.
+  - solve_train.
+  - solve_test H.
 Qed.
 
 Lemma feasible_check c : valid c ->
@@ -100,12 +139,11 @@ Lemma feasible_check c : valid c ->
                | Ok _ => match iw c with Some i => sww c && (wl c <? i) | None => true end
                end.
 Proof.
-  intros _. unfold feasible, gen_check_window_lengths, fhmax. cbv zeta.
-  destruct (wl c + zlast (fh c) >? n c) eqn:A; destruct (wl c + zlast (fh c) <=? n c) eqn:B;
-    try lia; cbn [andb].
-  destruct (iw c) as [i|]; [|reflexivity].
-  destruct (i + zlast (fh c) >? n c) eqn:C; destruct (i + zlast (fh c) <=? n c) eqn:D;
-    try lia; cbn [andb]; reflexivity.
+  intros _. unfold feasible, gen_check_window_lengths, fhmax. open_lets.
+  destruct (iw c) as [i|]; split_tests; cbn [andb]; try reflexivity;
+    repeat match goal with
+           | |- context [?a <=? ?b] => let E := fresh "E" in destruct (a <=? b) eqn:E
+           end; cbn [andb]; try reflexivity; lia.
 Qed.
 
 Lemma start_point_nonneg c : valid c -> 0 <= start_point c.
@@ -185,30 +223,28 @@ Theorem bridge_single nn f wlo : valid_fh f -> zlast f <= nn ->
   gen_split_filter (gen_single_split f wlo) nn = Ok (single_split nn f wlo).
 Proof.
   intros Hfh Hn. unfold gen_split_filter, gen_single_split, single_split, single_cutoff.
-  rewrite gen_get_end_eq by exact Hfh. unfold rcons, rapp. cbn [map app]. f_equal. f_equal. f_equal.
-  - rewrite zrange_filter_ge. destruct wlo as [w|]; f_equal; lia.
-  - rewrite test_filter_eq by (try assumption; lia). apply map_ext. intro; lia.
+  rewrite ?gen_get_end_eq by exact Hfh. open_lets.
+  destruct wlo as [w|]; open_lets; unfold rcons, rapp; cbn [map app]; open_lets;
+    (f_equal; f_equal; f_equal; [solve_train|solve_test Hfh]).
 Qed.
 
 Theorem bridge_single_cutoffs nn f : valid_fh f ->
   gen_single_cutoffs f nn = Ok [single_cutoff nn f].
 Proof.
-  intro Hfh. unfold gen_single_cutoffs, single_cutoff. rewrite gen_get_end_eq by exact Hfh.
-  f_equal. f_equal. lia.
+  intro Hfh. unfold gen_single_cutoffs, single_cutoff. rewrite ?gen_get_end_eq by exact Hfh.
+  open_lets. f_equal. f_equal. lia.
 Qed.
 
 Theorem bridge_cutoff nn f w cs : valid_fh f -> (forall c, In c cs -> 0 <= c) ->
   gen_split_filter (gen_cutoff_split cs f w) nn = cutoff_split nn f w cs.
 Proof.
-  intros Hfh Hcs. unfold gen_split_filter, gen_cutoff_split, cutoff_split.
-  destruct (zmax_list cs >=? nn) eqn:E1; cbn [orb]; [reflexivity|].
-  destruct (zmax_list cs + zmax_list f >=? nn) eqn:E2;
-    destruct (zmax_list cs + zmax_list f >? nn) eqn:E3; try lia; try reflexivity.
+  intros Hfh Hcs. unfold gen_split_filter, gen_cutoff_split, cutoff_split. open_lets.
+  destruct (zmax_list cs >=? nn) eqn:E1; destruct (zmax_list cs + zmax_list f >=? nn) eqn:E2;
+    cbn [orb]; split_tests; try reflexivity; try lia.
   unfold rapp. rewrite !app_nil_r, map_map. f_equal. apply map_ext_in. intros c Hc.
-  specialize (Hcs c Hc). f_equal.
-  - rewrite zrange_shift, zrange_filter_ge. f_equal; lia.
-  - apply filter_ge0_id. intros x Hx. apply in_map_iff in Hx. destruct Hx as [h [<- Hh]].
-    pose proof (valid_fh_pos f h Hfh Hh). lia.
+  specialize (Hcs c Hc). open_lets. f_equal.
+  - solve_train.
+  - solve_test Hfh.
 Qed.
 
 Theorem bridge_cutoff_reports cs :
